@@ -488,6 +488,22 @@ def c09_cases(tier, seed):
                 steps.append(backward(10, seed_tensor(od)))
                 steps += grads_of(list(range(1, 1 + ar)))
             cases.append(steps)
+    # element-wise operations under broadcasting, every tracked subset: the gradients of BOTH operands are plain
+    # untracked arrays, whichever operand is the smaller one (and the gradient can be used as a constant afterwards)
+    for a, b in (([1], [3]), ([3], [1]), ([1], [2, 2]), ([2, 1], [2, 3]), ([2, 3], [3]), ([3], [2, 3]), ([1, 1], [2]), ([2, 1, 2], [3, 1])):
+        for name in ("add", "sub", "mul", "div", "axpy"):
+            for m in range(1, 4):
+                trk = [bool(m & 1), bool(m & 2)]
+                vb = [(1 if k % 2 else -1) * F(2) ** ((k % 3) - 1) for k in range(prod(b))]
+                steps = [RESET, leaf(1, a, [k + 1 for k in range(prod(a))], trk=trk[0]), leaf(2, b, vb, trk=trk[1]),
+                         op(name, [1, 2], 10, **({"alpha": sc(2)} if name == "axpy" else {})),
+                         backward(10, seed_tensor(bdims(a, b)))]
+                steps += grads_of([1, 2])
+                # the fetched gradients used as constants in a second graph: nothing flows back through them
+                for k, h in enumerate((1, 2)):
+                    if trk[k]:
+                        steps += [op("mul", [90 + k, h], 30 + k), backward(30 + k)]
+                cases.append(steps)
     # untracked intermediate: nothing flows below it
     for variant in range(8):
         steps = [RESET, leaf(1, [3], [1, 2, 3], trk=True), leaf(2, [3], [2, -1, 1], trk=True),
